@@ -8,5 +8,7 @@ CONSTANTS
   DedupKeys = FALSE
   AssembleByArrival = FALSE
   FoldUnsynchronised = FALSE
+  FailKeys = {}
+  MsetIgnoresChildErrors = FALSE
   EmitVectors = TRUE
 CHECK_DEADLOCK FALSE
